@@ -110,6 +110,15 @@ instance [Inv α] : Inv (Quad α) := ⟨inv⟩
 /-- Multiply both coefficients by a scalar of the coefficient type. -/
 def scale (a : Quad α) (k : α) : Quad α := ⟨a.c0 * k, a.c1 * k⟩
 
+/-- `bn256/fq2.rs: ExtField for Fq2 :: mul_by_nonresidue`: `(9 + u)·(c0 + c1 u)` computed as
+`t = 8·a; (t.c0 + c0 − c1, t.c1 + c0 + c1)` (three doublings, no multiplication). -/
+def mulNR9 (a : Quad α) : Quad α :=
+  let t := double (double (double a))
+  ⟨t.c0 + a.c0 - a.c1, t.c1 + a.c0 + a.c1⟩
+
+/-- `bls12_381/fp2.rs: mul_by_nonresidue`: `(1 + u)·(c0 + c1 u) = (c0 − c1) + (c1 + c0) u`. -/
+def mulNR1 (a : Quad α) : Quad α := ⟨a.c0 - a.c1, a.c1 + a.c0⟩
+
 end Quad
 
 /-! ## Cubic extension `α[X]/(X³ − nr)` -/
